@@ -109,7 +109,9 @@ func one(c *fw.Ctx, body []gen.Stmt, nt bool, args []ugo.Object, rargs []ref.V) 
 		c.AddTraces(1)
 		if d := cmpx.Compare(r, o); d != "" {
 			for i := 0; i < 4; i++ {
-				if cmpx.Compare(r, run.Source(src, run.Options{NoOptimize: noopt, Args: args})) != d {
+				// (the text of a disagreement may vary from run to run - Go stacks, addresses; unstable means that a
+				// re-run AGREES with the reference)
+				if cmpx.Compare(r, run.Source(src, run.Options{NoOptimize: noopt, Args: args})) == "" {
 					c.Infra("unstable disagreement on %s", src)
 					return
 				}
